@@ -38,7 +38,10 @@ CONSTANTS MaxN,      \* sizes n = 1 .. MaxN
 Mk(r, cc, f(_, _)) == TLCEval([i \in 1 .. r |-> [j \in 1 .. cc |-> f(i, j)]])
 SumF(f(_), n) == LET S[k \in 0 .. n] == IF k = 0 THEN 0 ELSE S[k - 1] + f(k) IN S[n]
 Dim(A) == Len(A)
-MMul(A, B) == LET f(i, j) == LET g(k) == A[i][k] * B[k][j] IN SumF(g, Dim(A)) IN Mk(Dim(A), Dim(A), f)
+\* (the operands are bound through singleton sets: TLC then evaluates each of them once; handed over as
+\* operator arguments they were re-evaluated at every application, exponentially in the depth of a power)
+MMul(A, B) == CHOOSE M \in {LET f(i, j) == LET g(k) == AA[i][k] * BB[k][j] IN SumF(g, Dim(AA)) IN Mk(Dim(AA), Dim(AA), f)
+                               : AA \in {A}, BB \in {B}} : TRUE
 Ident(n) == LET f(i, j) == IF i = j THEN 1 ELSE 0 IN Mk(n, n, f)
 TransposeM(A) == LET f(i, j) == A[j][i] IN Mk(Dim(A), Dim(A), f)
 RECURSIVE MPow(_, _)
